@@ -70,6 +70,10 @@ macro_rules! run_pool {
         // the dispatchers apart)
         let rounds = v["rounds"].as_u64().unwrap_or(1) as usize;
         let record_calls = v["record"].as_bool().unwrap_or(true);
+        // "clock": ms values of hook H1, set before each dispatch call of the (single) dispatcher; with a gap between the calls the
+        // worker handles packet i while the clock shows clock[i]
+        let clockv: Option<Vec<u64>> = v.get("clock").and_then(|c| c.as_array()).map(|a| a.iter().map(|x| x.as_u64().unwrap()).collect());
+        let clockv = &clockv;
         let during = v["life"].as_str() == Some("during");
         let shutdown_at_us = v["shutdown_at_us"].as_u64().unwrap_or(0);
         let outcomes: Vec<Vec<&'static str>> = std::thread::scope(|s| {
@@ -94,6 +98,9 @@ macro_rules! run_pool {
                             .enumerate()
                             .map(|(fi, f)| {
                                 let t = hooks::tag(f);
+                                if let Some(c) = clockv {
+                                    crate::clock::set_ms(c[fi % c.len()]);
+                                }
                                 if record_calls {
                                     hooks::record(1, t);
                                 }
@@ -263,6 +270,15 @@ pub fn run(input: &mut dyn BufRead, out: &mut dyn Write, _args: &[String]) -> R 
                 run_pool!(huginn_net_tcp, &v, |tx| huginn_net_tcp::WorkerPool::new(nw, qs, bs, to, tx, if with_db { Some(Arc::clone(&db)) } else { None }, cap, f.clone()).expect("pool"),
                           |r: &huginn_net_tcp::TcpAnalysisResult| crate::m_tcp::result_to(r))
             }
+            "tcp_cfg" => {
+                // the pool an application gets: HuginnNetTcp::with_config + init_pool + worker_pool()
+                run_pool!(huginn_net_tcp, &v, |tx| {
+                              let mut a = huginn_net_tcp::HuginnNetTcp::with_config(if with_db { Some(Arc::clone(&db)) } else { None }, cap, nw, qs, bs, to).expect("analyzer");
+                              a.init_pool(tx).expect("pool");
+                              ArcPool(a.worker_pool().expect("worker pool"))
+                          },
+                          |r: &huginn_net_tcp::TcpAnalysisResult| crate::m_tcp::result_to(r))
+            }
             "http" => {
                 let f = v.get("filter").filter(|f| !f.is_null()).map(|f| crate::m_filter::http_filter(f));
                 run_pool!(huginn_net_http, &v, |tx| HttpPoolWrap(huginn_net_http::WorkerPool::new(nw, qs, bs, to, tx, if with_db { Some(Arc::clone(&db)) } else { None }, cap, f.clone()).expect("pool")),
@@ -298,6 +314,20 @@ impl HttpPoolWrap {
         self.0.dispatch(p)
     }
     pub fn stats(&self) -> huginn_net_http::PoolStats {
+        self.0.stats()
+    }
+    pub fn shutdown(&self) {
+        self.0.shutdown()
+    }
+}
+
+/// HuginnNetTcp::worker_pool() hands out Arc<WorkerPool>: the same surface as a pool built directly
+pub struct ArcPool(pub Arc<huginn_net_tcp::WorkerPool>);
+impl ArcPool {
+    pub fn dispatch(&self, p: Vec<u8>) -> huginn_net_tcp::DispatchResult {
+        self.0.dispatch(p)
+    }
+    pub fn stats(&self) -> huginn_net_tcp::PoolStats {
         self.0.stats()
     }
     pub fn shutdown(&self) {
